@@ -5,6 +5,8 @@ import (
 	"go/types"
 	"sort"
 	"strings"
+
+	"golang.org/x/tools/go/ssa"
 )
 
 // c12R9: the error pages a site configures are the ones the handler will read.  errorsParse is evaluated (E10) on
@@ -132,4 +134,46 @@ func c12R10(h H) {
 	}
 	bad, n := fcgiExchangeTable(h, fn, []fcgiCase{{"a complete response whose body then cannot be relayed", "full", "", 0, true}})
 	r.Check(bad == "" && n == 1, "R10", "fastcgi.Handler.ServeHTTP/no-error-status-after-the-header", fn.Pos(), "once the responder's header is written the handler reports errors without a status", sprintf("%d exchange evaluated", n), bad)
+}
+
+// c12R11: the errors handler answers an error status once.  errorPage writes the configured page or falls back on the
+// plain text answer; both commit the header.  On no path does one committing call follow another: every call of
+// ResponseWriter.WriteHeader, httpserver.DefaultErrorFunc and httpserver.WriteTextResponse in ErrorHandler.errorPage
+// is unreachable from every other one.
+func c12R11(h H) {
+	r := h.r
+	r.Rule("R11", "the error page is committed once: in errors.ErrorHandler.errorPage no call that commits the response header (ResponseWriter.WriteHeader, httpserver.DefaultErrorFunc, httpserver.WriteTextResponse) is reachable from another one", 1)
+	fn := h.fn("R11", "caskethttp/errors", "ErrorHandler.errorPage")
+	if fn == nil {
+		return
+	}
+	var commits []ssa.Instruction
+	for _, g := range withHelpers(fn, 1) {
+		if g != fn {
+			continue
+		}
+		allInstrs(g, func(in ssa.Instruction) {
+			c := callOf(in)
+			if c == nil {
+				return
+			}
+			n := calleeName(c)
+			if (c.IsInvoke() && c.Method.Name() == "WriteHeader") || strings.HasSuffix(n, "httpserver.DefaultErrorFunc") || strings.HasSuffix(n, "httpserver.WriteTextResponse") {
+				commits = append(commits, in)
+			}
+		})
+	}
+	if len(commits) < 2 {
+		r.Unresolve("R11", "ErrorHandler.errorPage: fewer than two header-committing calls found (page and fallback)")
+		return
+	}
+	bad := ""
+	for _, a := range commits {
+		for _, b := range commits {
+			if a != b && canReach(fn, a, b, cut{}) && bad == "" {
+				bad = sprintf("after the header was committed at %s, the call at %s commits it again", h.p.Pos(a.Pos()), h.p.Pos(b.Pos()))
+			}
+		}
+	}
+	r.Check(bad == "", "R11", "errors.ErrorHandler.errorPage/commits-once", fn.Pos(), "one committing call per path", sprintf("%d committing calls", len(commits)), bad)
 }
